@@ -17,12 +17,12 @@ import (
 
 var mixC15 = Mix{Set: 24, Delete: 9, Get: 3, GetItem: 5, Exist: 2, MinMax: 4, Totals: 1, Visit: 6, Iter: 2, Len: 1,
 	Flush: 7, Evict: 7, Reopen: 3, Snapshot: 4, SnapRead: 6, SnapClose: 3, SnapOfSnap: 1,
-	SetCollNew: 2, SetCollExisting: 2, RemoveColl: 2, PinVisit: 1, ResumeVisit: 2, VisitEvict: 4, CopyTo: 2}
+	SetCollNew: 2, SetCollExisting: 2, RemoveColl: 2, PinVisit: 1, ResumeVisit: 2, VisitEvict: 4, CopyTo: 2, FlushRevert: 2}
 
 func init() {
 	register(&Prop{
 		ID: "C15", Level: "exploration",
-		Rule: "case = random history (mutations incl. overwrites and deletes, lookups, all visit kinds and iterators, Len, EvictSomeItems, Flush, re-open, snapshots, SetCollection/RemoveCollection, suspended readers, visits whose callback evicts) over 1-3 collections with ItemAlloc/ItemAddRef/ItemDecRef installed and wired to a mutex-protected monitor that follows the documented protocol (allocated items start at 1; the application drops its own reference after SetItem and releases what lookups return). Checked online: no DecRef takes a count below zero; every item returned by GetItem/MinItem/MaxItem or passed to a visitor has a positive count; after every step every item cached in a node reachable from an open handle (hook walk) has a positive count. Concurrent cases: 2-4 readers (lookups, visits, Min/Max in both value modes) next to a mutator that only evicts, on a cold file under the deterministic yield-point scheduler (switches at every file call, so two readers load the same uncached item at once and one loses the cache CAS); the store is then closed and every count must be zero. End of life: the snapshots and the store are closed in a seed-chosen order (stores abandoned by a re-open are closed too) and every count must be zero. Non-trivial = the history evicted or re-read items, deleted or overwrote some, and closed at least one snapshot or re-opened; distinct = distinct op-trace hash.",
+		Rule: "case = random history (mutations incl. overwrites and deletes, lookups, all visit kinds and iterators, Len, EvictSomeItems, Flush, re-open, snapshots, SetCollection/RemoveCollection, suspended readers, visits whose callback evicts) over 1-3 collections with ItemAlloc/ItemAddRef/ItemDecRef installed and wired to a mutex-protected monitor that follows the documented protocol (allocated items start at 1; the application drops its own reference after SetItem and releases what lookups return). Checked online: no DecRef takes a count below zero; every item returned by GetItem/MinItem/MaxItem or passed to a visitor has a positive count; after every step every item cached in a node reachable from an open handle (hook walk) has a positive count. Concurrent cases: 2-4 readers (lookups, visits, Min/Max in both value modes) next to a mutator that only evicts, on a cold file under the deterministic yield-point scheduler (switches at every file call, so two readers load the same uncached item at once and one loses the cache CAS); the store is then closed and every count must be zero. Histories include FlushRevert (collections that vanish with the reverted flush must release their items too). One scripted case runs after the process-wide node free list has been grown beyond 2^16 nodes (thorough: also 2^17). End of life: the snapshots and the store are closed in a seed-chosen order (stores abandoned by a re-open are closed too) and every count must be zero. Non-trivial = the history evicted or re-read items, deleted or overwrote some, and closed at least one snapshot or re-opened; distinct = distinct op-trace hash.",
 		Assumptions: []string{
 			"the application follows the documented protocol: it releases each item returned by GetItem/MinItem/MaxItem exactly once and does not retain visitor items",
 			"items created by Collection.Set() (not through ItemAlloc) start at count 0 from the monitor's point of view",
@@ -30,7 +30,7 @@ func init() {
 		NumCases: func(tier string) int { return pick(tier, 800, 30000) + pick(tier, 600, 20000) },
 		Run:      runC15,
 		Floor: func(tier string, st map[string]int64) string {
-			for _, k := range []string{"cb.ItemAlloc", "cb.ItemAddRef", "cb.ItemDecRef", "evicted", "op.SnapClose", "op.Reopen", "c15.end-of-life-balanced", "walks", "c15.concurrent-executions"} {
+			for _, k := range []string{"cb.ItemAlloc", "cb.ItemAddRef", "cb.ItemDecRef", "evicted", "op.SnapClose", "op.Reopen", "c15.end-of-life-balanced", "walks", "c15.concurrent-executions", "c15.big-free-list-cases", "op.FlushRevert"} {
 				if st[k] == 0 {
 					return "no " + k + " observed"
 				}
@@ -46,6 +46,9 @@ func runC15(ctx *Ctx, idx int) Result {
 	SeedGlobalRand(seed)
 	if idx == 0 {
 		return runC15StaleRead(ctx)
+	}
+	if idx == 1 || (ctx.Thorough() && idx%997 == 1) {
+		return runC15BigFreeList(ctx, idx, r)
 	}
 	if idx >= pick(ctx.Tier, 800, 30000) {
 		return runC15Concurrent(ctx, idx, r)
@@ -125,6 +128,60 @@ func runC15StaleRead(ctx *Ctx) Result {
 	}
 	ctx.Add(e)
 	return Result{Hash: 15, NonTrivial: true, Viol: violOf(e), Sample: map[string]interface{}{"index": 0, "scripted": "stale-version-read", "ops": e.Trace}}
+}
+
+// runC15BigFreeList: the reference protocol after the package-global node free list has grown large
+// (beyond 2^16 / 2^17 nodes): a memory-only store of that many items is built and closed first, then a
+// file-backed store under the reference monitor is filled, flushed, re-opened, read completely and closed.
+func runC15BigFreeList(ctx *Ctx, idx int, r *gen.R) Result {
+	fill := 70000
+	if idx != 1 {
+		fill = 140000
+	}
+	if have := len(gkvlite.VerifFreeNodes()); have < fill {
+		ms, _ := gkvlite.NewStore(nil)
+		c := ms.SetCollection("filler", nil)
+		for i := 0; i < fill-have+500; i++ {
+			c.SetItem(&gkvlite.Item{Key: []byte(fmt.Sprintf("f%07d", i)), Val: []byte{}, Priority: int32(r.Intn(1 << 30))})
+		}
+		ms.Close()
+	}
+	ctx.Stats["c15.max-free-list-nodes-seen"] = int64(len(gkvlite.VerifFreeNodes()))
+	e := driver.NewEnv(fmt.Sprintf("c15-bigfree-%d", idx), driver.Config{RefMon: true, Recycle: idx%2 == 0})
+	e.SetCollection("a", "")
+	n := r.Range(400, 900)
+	for i := 0; i < n && !e.Failed(); i++ {
+		e.SetItem("a", []byte(fmt.Sprintf("k%05d", i)), []byte(fmt.Sprintf("v%d", i)), int32(r.Intn(1<<30)), false)
+	}
+	e.Flush()
+	e.Reopen(true)
+	for i := 0; i < n && !e.Failed(); i += 1 + r.Intn(2) {
+		e.Get(-1, "a", []byte(fmt.Sprintf("k%05d", i)))
+	}
+	e.Visit(-1, "a", driver.VAsc, nil, true, -1)
+	for i := 0; i < n && !e.Failed(); i += 3 {
+		e.GetItem(-1, "a", []byte(fmt.Sprintf("k%05d", i)), i%2 == 0)
+	}
+	e.Snapshot(-1)
+	for i := 0; i < 20 && !e.Failed(); i++ {
+		e.Delete("a", []byte(fmt.Sprintf("k%05d", i*7)))
+	}
+	if !e.Failed() {
+		e.SnapClose(0)
+		e.Close()
+		e.AfterStep()
+	}
+	if !e.Failed() {
+		if items, refs, ex := e.RC.Outstanding(); items != 0 {
+			e.Failf("C15/end-of-life-imbalance/"+strings.Join(e.RC.LeakKinds(), ","), "with %d nodes on the process-wide free list: after closing the store and its snapshot %d item(s) still carry %d reference(s) gkvlite took (e.g. %s)", ctx.Stats["c15.max-free-list-nodes-seen"], items, refs, ex)
+		} else {
+			ctx.Stats["c15.end-of-life-balanced"]++
+		}
+	}
+	ctx.Stats["c15.big-free-list-cases"]++
+	ctx.Add(e)
+	return Result{Hash: gen.Mix(15, uint64(idx)), NonTrivial: true, Viol: violOf(e),
+		Sample: map[string]interface{}{"index": idx, "scripted": "big-free-list", "free_list_nodes": ctx.Stats["c15.max-free-list-nodes-seen"], "items": n}}
 }
 
 // runC15Concurrent: readers racing on the lazy-load caches with the reference monitor installed.
